@@ -2,6 +2,7 @@ SPECIFICATION Spec
 CONSTANTS Artists = {"Patch", "Line2D", "Text"}
  Styles = {"none", "mpl", "ds9"}
 INVARIANT CallerWins
+INVARIANT CallerColourShows
 INVARIANT VisualBeatsDefault
 INVARIANT DefaultsRemain
 CHECK_DEADLOCK FALSE
